@@ -222,6 +222,18 @@ def _native_text(keys, seq):
     return "{" + ",".join(parts) + "}"
 
 
+
+def _native_battery(out, scenario, vectors, what):
+    """validation, not the deciding step: the native scenario (real crates, oracle written from the property text) on fixed vectors must report nothing
+    when every obligation is discharged; a disagreement means an obligation or the oracle is wrong => undecided"""
+    val = R.validate_encoding(scenario, vectors, lambda v: {}, [])
+    VALIDATION[what] = val
+    if val.get("native_violations") and all(r.get("status") == "discharged" for r in out):
+        out.append(R.Result(engine="mirsym", name="validation:" + what, kind="validation", status="native-battery-disagrees",
+                            detail=f"{val['native_violations']} native violation(s) on the validation vectors although every obligation is discharged", bodies=[]))
+    return out
+
+
 def obligations(tier, seed):
     types = R.bodies("types")
     out = []
@@ -250,4 +262,4 @@ def obligations(tier, seed):
         out.append(R.decide("kernel:Response::Field::visit_str:member-names", "kernel", z3.Or(*viol) if viol else z3.BoolVal(False), [z3.Or(*reach)], bodies=[b.name],
                             desc='the keys "jsonrpc", "result", "error", "id" select their member; every other key is ignored', bounds="all key strings (one Boolean per compared literal)",
                             keydetail="response-field-names", replay=dict(scenario="c15_response", vars={}, fixed={"battery": True}, region=z3.BoolVal(True))))
-    return out
+    return _native_battery(out, "c15_response", [{"battery": True}], "native-member-sequences")
